@@ -60,4 +60,12 @@ MUTANTS = [
         iterable = get_entry_senses(self._id, lexids)""")]},
     {'name': 'benign-hash-subset', 'expect': 'silent',
      'edits': [E(C, "        datum = self.name, self.source_id, self.target_id, self._lexicon, self.subtype\n        return hash(datum)", "        datum = self.name, self.source_id, self.target_id\n        return hash(datum)")], 'property': 'C10'},
+    {'name': 'synset-words-sorted', 'expect': 'C10-R6',
+     'edits': [E(C, "        return [sense.word() for sense in self.senses()]", "        return sorted((sense.word() for sense in self.senses()), key=lambda w: w.id)")]},
+    {'name': 'word-synsets-deduplicated', 'expect': 'C10-R6',
+     'edits': [E(C, "        return [sense.synset() for sense in self.senses()]", "        return unique_list(sense.synset() for sense in self.senses())")]},
+    {'name': 'lemmas-filtered', 'expect': 'C10-R6',
+     'edits': [E(C, "        return [w.lemma() for w in self.words()]", "        return [w.lemma() for w in self.words() if w.lemma()]")]},
+    {'name': 'benign-image-loop-var-renamed', 'expect': 'silent', 'property': 'C10',
+     'edits': [E(C, "        return [sense.word() for sense in self.senses()]", "        return [s.word() for s in self.senses()]")]},
 ]
